@@ -327,6 +327,13 @@ type primeT struct {
 	S string `valid:"required"`
 }
 
+// non-nil pointers to scalars under required / exist: walked through the "pointer to something that is no struct" exits
+type primePtrT struct {
+	P *string `valid:"required"`
+	Q *int    `valid:"exist"`
+	R **bool  `valid:"exist"`
+}
+
 var builtinRuleNames = []string{"required", "exist", "either", "botheq", "to", "ge", "le", "oto", "gt", "lt", "eq", "noeq", "in", "include",
 	"phone", "email", "idcard", "year", "year2month", "date", "datetime", "int", "ints", "float", "re", "ip", "ipv4", "ipv6", "unique",
 	"json", "prefix", "suffix", "file", "dir"}
@@ -406,8 +413,19 @@ func prime() {
 		quietly(func() { _ = valid.GetJoinFieldErr("", "", fmt.Errorf("explain: M9PRIMED")) })
 		quietly(func() { _ = valid.GetJoinValidErrStr("P", "P", "explain: M9PRIMED") })
 	}
+	// accepted calls that leave through rarely taken exits (a counter or flag kept per pooled object would drift);
+	// many in a row: too quick for a garbage collection to empty the pool in between
+	burst := func() {
+		quietly(func() {
+			ps, pi, pb := "s", 1, true
+			ppb := &pb
+			for k := 0; k < 70; k++ {
+				_ = valid.Struct(&primePtrT{P: &ps, Q: &pi, R: &ppb})
+			}
+		})
+	}
 	// which family comes last decides what a pool hands to the measured call
-	switch (n / 3) % 3 {
+	switch (n / 3) % 4 {
 	case 0:
 		withFns()
 		helpers()
@@ -416,10 +434,14 @@ func prime() {
 		refused()
 		helpers()
 		withFns()
-	default:
+	case 2:
 		refused()
 		withFns()
 		helpers()
+	default:
+		refused()
+		helpers()
+		burst()
 	}
 }
 
@@ -455,6 +477,15 @@ func (w *walkCall) run() (err error, panicked bool, ptext string) {
 			return
 		case len(w.Typed) == 0 && len(w.Local) == 0 && w.HasUnsc && w.Tag == "" && len(w.Unscoped)%2 == 0:
 			err = valid.Struct(w.Src, valid.RM(w.Unscoped))
+			return
+		case len(w.Typed) == 0 && len(w.Local) == 0 && w.HasUnsc && w.Tag == "" && len(w.Unscoped)%4 == 1:
+			// Struct takes a variadic list of rule sets and uses the first one only: the others change nothing
+			decoy := valid.RM{}
+			for k := range w.Unscoped {
+				decoy[k] = "eq=987654321|M9DECOY,required|M9DECOY"
+			}
+			decoy["NoSuchField"] = "required|M9DECOY"
+			err = valid.Struct(w.Src, valid.RM(w.Unscoped), decoy, valid.RM{"S": "eq=987654321|M9DECOY", "A": "required|M9DECOY"})
 			return
 		case len(w.Typed) == 0 && len(w.Local) == 0 && w.HasUnsc && w.Tag != "" && len(w.Unscoped)%2 == 0:
 			err = valid.StructForFn(w.Src, valid.RM(w.Unscoped), w.Tag)
